@@ -127,7 +127,9 @@ def completion(db):
 
 
 # ---- C10: free cores ------------------------------------------------------------------------------------
-def free_cores(db):
+def free_cores(db, was_pending=None):
+    """was_pending(instance key) -> condition that the instance is or has been `pending` in this history (the listed
+    finding class only concerns attempts that ended while their instance was pending)."""
     out = []
     js = {f.j: f for f in oracle.jobs(db)}
     for k, r in db.t['instances'].rows.items():
@@ -146,7 +148,9 @@ def free_cores(db):
         # of attempts that already ended on this instance, never over-reported
         out.append((f'{S.name(k[0])}: live => free = cores - cores of unended attempts',
                     imp(b_and(r.present, live), oracle.eq(free, cores - used)),
-                    imp(b_and(r.present, live), b_and(free <= cores - used, free >= cores - placed))))
+                    imp(b_and(r.present, live), b_or(oracle.eq(free, cores - used),
+                                                     b_and(was_pending(k) if was_pending is not None else True,
+                                                           free <= cores - used, free >= cores - placed)))))
         out.append((f'{S.name(k[0])}: inactive => all cores free',
                     imp(b_and(r.present, inactive), oracle.eq(fr.vals['free_cores_mcpu'].v, r.vals['cores_mcpu'].v))))
     return out
